@@ -11,7 +11,7 @@ L1Model(d) ==
    /\ LET r == ToV3Doc(d) IN
       /\ r.out = "ok"
       /\ Has(r.d3, "paths")               \* the one shape rule of Validate the model knows
-      /\ ApiDiff(Api2(d), Api3(r.d3)) = {}
+      /\ ApiDiff3(Api2(d), Api3(r.d3)) = {}
       /\ SerDiffs(Api2(d), Api3(r.d3)) = {}
       /\ ServersFwdOK(d, r.d3)
       /\ LET b == FromV3Doc(r.d3, {Host2(d)}, {StrOf(Opt(d, "basePath"), "")})
